@@ -127,15 +127,19 @@ func (g *gen) quoteCases() {
 	}
 	ss = append(ss, plainNames...)
 	ss = append(ss, quotedNames...)
-	for _, s := range ctlNames {
-		if quoteModelled(s) {
-			ss = append(ss, s)
-		}
+	ss = append(ss, ctlNames...)
+	ss = append(ss, "\xc0\xaf", "\xe0\x80\xaf", "\xed\xa0\x80", "\xf4\x90\x80\x80", "\xf0\x9f\x98\x80", "\xf0\x9f\x98", "\xef\xbf\xbd", "\xc2\x85", "\xc2\xad", "\xe2\x80\xa8",
+		"\xf3\xa0\x80\x81", "\xf4\x8f\xbf\xbf", "\xed\x9f\xbf", "\xee\x80\x80", "\xe0\xa0\x80", "\xf0\x90\x80\x80", "a\xffb\xc3", "\xc3\xa9\xc3", "\xf8\x88\x80\x80\x80")
+	for i := r.Scale(120, 1500); i > 0; i-- {
+		ss = append(ss, g.str())
 	}
-	for i := r.Scale(60, 600); i > 0; i-- {
-		if s := g.str(); quoteModelled(s) {
-			ss = append(ss, s)
+	for i := r.Scale(60, 600); i > 0; i-- { // random bytes biased towards UTF-8 lead / continuation bytes
+		n := g.rng.Range(1, 6)
+		b := make([]byte, n)
+		for j := range b {
+			b[j] = hk.Pick(g.rng, []byte{0x80, 0xbf, 0xc2, 0xc3, 0xe0, 0xe2, 0xed, 0xef, 0xf0, 0xf4, 0xa0, 0x9f, 0x90, 0x8f, 0x41, 0x22, 0x5c, byte(g.rng.Intn(256))})
 		}
+		ss = append(ss, string(b))
 	}
 	for _, s := range ss {
 		q := fmt.Sprintf("%q", s)
@@ -151,8 +155,13 @@ func (g *gen) quoteCases() {
 			continue
 		}
 		e := out[len(pre) : len(out)-len(suf)]
+		// what a server recovers from the %q form
+		back, hasBack := "", false
+		if _, params, err := mime.ParseMediaType("form-data; filename=" + q); err == nil {
+			back, hasBack = params["filename"]
+		}
 		r.Count("quote")
-		r.Add(hk.Case{Coq: fmt.Sprintf("QuoteCase %s %s %s", cs(s), cs(q), cs(e)), Desc: map[string]interface{}{"kind": "quote", "s": []byte(s)}}, "quote:"+s, q != "\""+s+"\"")
+		r.Add(hk.Case{Coq: fmt.Sprintf("QuoteCase %s %s %s %s %s", printTable(s), cs(s), cs(q), cs(e), coqOptStr(hasBack, back)), Desc: map[string]interface{}{"kind": "quote", "s": []byte(s)}}, "quote:"+s, q != "\""+s+"\"")
 	}
 	bs := []string{"", "b", "XyZ", "with space", "trailing ", " leading", "quoted:bound/ary?=(x)", strings.Repeat("b", 70), strings.Repeat("b", 71), "a\"b", "a\\b", "new\nline", "bäd", "semi;colon",
 		"'()+_,-./:=?", "0123456789abcdefABCDEF", "----WebKitFormBoundary7MA4YWxkTrZu0gW", "<angle>", "[sq]", "a@b", "x*y", "t\tab"}
@@ -393,5 +402,46 @@ func (g *gen) downloadCases() {
 		mu.Unlock()
 		r.Count("download:" + iv)
 		r.Add(hk.Case{Coq: coq, Desc: in}, fmt.Sprintf("dl|%d|%s|%v", size, iv, withCL), size > 512)
+	}
+}
+
+// ---- requests that are sent twice: retry after a 503, digest re-send after a 401 ----
+
+func (g *gen) rerunCases() {
+	r, rng := g.r, g.rng
+	n := r.Scale(80, 1000)
+	for i := 0; i < n; i++ {
+		in := reqIn{Method: hk.Pick(rng, []string{"POST", "PUT"}), Rerun: []string{"retry", "digest"}[i%2]}
+		switch (i / 2) % 4 {
+		case 0: // url-encoded, client + request level
+			in.Kind = "form"
+			in.CForm = g.form(rng.Range(1, 2))
+			if rng.Bool() {
+				in.RForm = g.form(rng.Range(1, 3))
+			}
+		case 1: // url-encoded ordered (+ client)
+			in.Kind = "form"
+			in.Ordered = g.ordered(rng.Range(1, 3))
+			if rng.Bool() {
+				in.CForm = g.form(1)
+			}
+		default: // multipart with client-level fields and replayable files
+			in.Kind = "multipart"
+			in.CForm = g.mpForm(rng.Range(1, 2), 0)
+			if rng.Bool() {
+				in.RForm = g.mpForm(1, 0)
+			}
+			nf := rng.Range(0, 3)
+			for j := 0; j < nf; j++ {
+				f := g.file(hk.Pick(rng, []int{0, 5, 511, 512, 513, 1500}), hk.Pick(rng, []string{"path", "bytes", "upload"}), rng.Intn(2))
+				in.Files = append(in.Files, f)
+			}
+			if nf == 0 {
+				in.ForceMultipart = true
+			}
+			in.Chunked = rng.Chance(35)
+		}
+		r.Count("rerun:" + in.Rerun + ":" + in.Kind)
+		g.oneBody(in)
 	}
 }
